@@ -6,12 +6,22 @@
 
 package ristretto
 
-import "time"
+import (
+	"sync"
+	"time"
+)
 
 // Verification hooks, disabled. Every function here has an empty or identity
 // body so that the compiler removes the call sites; the shipped behaviour is
 // exactly the behaviour without hooks. Build with `-tags verif` to enable them
 // (see verif_on.go).
+
+// The mutexes embedded in lockedMap, expirationMap and defaultPolicy: plain
+// aliases of the sync types.
+type (
+	verifRWMutex = sync.RWMutex
+	verifMutex   = sync.Mutex
+)
 
 type verifLoopState struct{}
 type verifRingState struct{}
